@@ -173,3 +173,86 @@ func VerifC11_Schedules() {
 	}
 	verifrt.Reached("end")
 }
+
+// Forced resubscription: after the server refreshed its topics (snapshot restore) or after a change of the
+// subscriber's token was published, the subscriber's next read fails with the corresponding error - it is
+// never left consuming from the old buffers - while subscribers with other tokens are not disturbed by a
+// token change.
+func VerifC11_ForcedResubscribe() {
+	topic := StringTopic("t")
+	store := &vStore{}
+	pub := NewEventPublisher(10 * time.Second)
+	pub.RegisterHandler(topic, func(req SubscribeRequest, buf SnapshotAppender) (uint64, error) {
+		cur := store.current()
+		if cur.idx != 0 {
+			buf.Append([]Event{{Topic: topic, Index: cur.idx, Payload: vPayload{cur.val}}})
+		}
+		return cur.idx, nil
+	}, false)
+	type sub struct {
+		s      *Subscription
+		token  string
+		closed int // 0 open, 1 must report ErrSubForceClosed, 2 must report ErrACLChanged
+	}
+	var subs []*sub
+	nextIdx := uint64(10)
+	tokens := []string{"tokA", "tokB"}
+	for step := 0; step < 6; step++ {
+		switch verifrt.Choice("step", 6) {
+		case 0: // commit
+			nextIdx++
+			v := vVersion{nextIdx, verifrt.U64("val")}
+			store.versions = append(store.versions, v)
+			pub.Publish([]Event{{Topic: topic, Index: v.idx, Payload: vPayload{v.val}}})
+		case 1: // hand-off
+			if !pub.VerifDrainOne() {
+				verifrt.Assume(false)
+			}
+		case 2: // subscribe with one of two tokens
+			if len(subs) >= 2 {
+				verifrt.Assume(false)
+			}
+			tok := tokens[verifrt.Choice("token", 2)]
+			s, err := pub.Subscribe(&SubscribeRequest{Topic: topic, Subject: StringSubject("k"), Token: tok})
+			verifrt.Assert("C11.subscribe.no-error", err == nil)
+			subs = append(subs, &sub{s: s, token: tok})
+		case 3: // the server restored a snapshot: every topic is refreshed
+			pub.RefreshAllTopics()
+			for _, x := range subs {
+				if x.closed == 0 {
+					x.closed = 1
+				}
+			}
+		case 4: // a change of token A (policy, role or the token itself) is committed and handed to the publisher
+			pub.Publish([]Event{NewCloseSubscriptionEvent([]string{"tokA"})})
+			for pub.VerifDrainOne() {
+			}
+			for _, x := range subs {
+				if x.closed == 0 && x.token == "tokA" {
+					x.closed = 2
+				}
+			}
+		case 5: // a subscriber reads
+			if len(subs) == 0 {
+				verifrt.Assume(false)
+			}
+			x := subs[verifrt.Choice("who", len(subs))]
+			v := &vView{sub: x.s}
+			if x.closed == 0 && !v.ready() {
+				verifrt.Assume(false)
+			}
+			_, err := x.s.Next(context.Background())
+			switch x.closed {
+			case 0:
+				verifrt.Assert("C11.forced.undisturbed-subscriber-keeps-reading", err == nil)
+			case 1:
+				verifrt.Assert("C11.forced.refresh-forces-resubscribe", err == ErrSubForceClosed)
+				verifrt.Reached("force-closed")
+			case 2:
+				verifrt.Assert("C11.forced.token-change-forces-resubscribe", err == ErrACLChanged)
+				verifrt.Reached("acl-changed")
+			}
+		}
+	}
+	verifrt.Reached("end")
+}
